@@ -25,6 +25,17 @@ for _f in sorted(os.listdir(os.path.join(_here, "props"))):
     elif _f == "SELFTEST.py":
         PROPS["SELFTEST"] = importlib.import_module("SELFTEST").PROP
 
+# thorough-tier harnesses that were never decided on the pinned tree are kept out of the registered commands
+# (tools/prunethorough.py, DESIGN.md 8.8)
+import json as _json
+_okf = os.path.join(_here, "props", "thorough_ok.json")
+_OK = _json.load(open(_okf)) if os.path.exists(_okf) else None
+if _OK is not None:
+    for _p, _spec in PROPS.items():
+        for _h in _spec["harnesses"]:
+            if _h.get("tier", "quick") == "thorough" and _h["name"] not in _OK.get(_p, []):
+                _h["tier"] = "experimental"
+
 # ------------------------------------------------------------------------- not applicable
 NOT_APPLICABLE = [
     {"property_id": "C07", "reason": "needs >= 2 multi-threaded DomainParticipants exchanging UDP datagrams under wall-clock timers; Kani/CBMC model neither threads nor sockets, and cutting below DomainParticipant removes the scheduling and I/O the property quantifies over (its sequential ingredients are decided under C01-C05, C10-C12, C14, C15)"},
